@@ -119,7 +119,14 @@ func (rd *realDecoder) getCompactArrayLength() (int, error) {
 		return 0, nil
 	}
 
-	return int(n) - 1, nil
+	length := int(n - 1)
+	if length < 0 {
+		return 0, errInvalidArrayLength
+	} else if length > rd.remaining() {
+		rd.off = len(rd.raw)
+		return 0, ErrInsufficientData
+	}
+	return length, nil
 }
 
 func (rd *realDecoder) getBool() (bool, error) {
@@ -230,6 +237,12 @@ func (rd *realDecoder) getCompactString() (string, error) {
 	}
 
 	length := int(n - 1)
+	if length < 0 {
+		return "", errInvalidStringLength
+	} else if length > rd.remaining() {
+		rd.off = len(rd.raw)
+		return "", ErrInsufficientData
+	}
 
 	tmpStr := string(rd.raw[rd.off : rd.off+length])
 	rd.off += length
@@ -246,6 +259,9 @@ func (rd *realDecoder) getCompactNullableString() (*string, error) {
 
 	if length < 0 {
 		return nil, err
+	} else if length > rd.remaining() {
+		rd.off = len(rd.raw)
+		return nil, ErrInsufficientData
 	}
 
 	tmpStr := string(rd.raw[rd.off : rd.off+length])
@@ -263,7 +279,13 @@ func (rd *realDecoder) getCompactInt32Array() ([]int32, error) {
 		return nil, nil
 	}
 
-	arrayLength := int(n) - 1
+	arrayLength := int(n - 1)
+	if arrayLength < 0 {
+		return nil, errInvalidArrayLength
+	} else if arrayLength > rd.remaining() || rd.remaining() < 4*arrayLength {
+		rd.off = len(rd.raw)
+		return nil, ErrInsufficientData
+	}
 
 	ret := make([]int32, arrayLength)
 
@@ -346,6 +368,11 @@ func (rd *realDecoder) getStringArray() ([]string, error) {
 
 	if n < 0 {
 		return nil, errInvalidArrayLength
+	}
+
+	if n > rd.remaining() {
+		rd.off = len(rd.raw)
+		return nil, ErrInsufficientData
 	}
 
 	ret := make([]string, n)
